@@ -341,7 +341,7 @@ type opStore struct {
 }
 
 func newOpStore(ctx context.Context, e opEnv) (*opStore, error) {
-	b := crfake.NewClientBuilder().WithScheme(opScheme()).WithStatusSubresource(&kaiv1.Config{})
+	b := crfake.NewClientBuilder().WithScheme(opScheme()).WithObjectTracker(newTracker(opScheme())).WithStatusSubresource(&kaiv1.Config{})
 	for _, c := range known_types.KAIConfigRegisteredCollectible {
 		if c.InitWithFakeClientBuilder != nil {
 			c.InitWithFakeClientBuilder(b)
@@ -407,7 +407,7 @@ func (s *opStore) dump(ctx context.Context) (exact, norm map[string]string, err 
 			kind := s.mon.kindOf(o)
 			key := kind + " " + o.GetNamespace() + "/" + o.GetName()
 			b, _ := json.Marshal(o)
-			exact[key] = string(b)
+			exact[key] = canon(o)
 			var m map[string]any
 			_ = json.Unmarshal(b, &m)
 			if kind == "Secret" {
@@ -456,7 +456,11 @@ func diffDumps(a, b map[string]string) []string {
 		if !ok {
 			out = append(out, "only-in-first "+k)
 		} else if va != vb {
-			out = append(out, "differs "+k+": "+firstDiff(va, vb))
+			tag := "differs "
+			if loose(va) == loose(vb) {
+				tag = "differs-in-order-only "
+			}
+			out = append(out, tag+k+": "+firstDiff(va, vb))
 		}
 	}
 	for k := range b {
@@ -468,6 +472,74 @@ func diffDumps(a, b map[string]string) []string {
 	return out
 }
 
+// loose is an order-insensitive normal form used only to NAME a difference (never to accept one): JSON arrays are
+// sorted and comma separated k=v lists inside strings are sorted.
+func loose(js string) string {
+	var v any
+	if json.Unmarshal([]byte(js), &v) != nil {
+		return js
+	}
+	var norm func(x any) any
+	norm = func(x any) any {
+		switch t := x.(type) {
+		case map[string]any:
+			for k, c := range t {
+				t[k] = norm(c)
+			}
+			return t
+		case []any:
+			enc := make([]string, len(t))
+			for i, c := range t {
+				b, _ := json.Marshal(norm(c))
+				enc[i] = string(b)
+			}
+			sort.Strings(enc)
+			return enc
+		case string:
+			if strings.Contains(t, ",") && strings.Contains(t, "=") {
+				parts := strings.Split(t, ",")
+				sort.Strings(parts)
+				return strings.Join(parts, ",")
+			}
+			return t
+		}
+		return x
+	}
+	b, _ := json.Marshal(norm(v))
+	return string(b)
+}
+
+// reportDiffs adds one violation per (kind, class of difference): prefix:Kind[:order-only|:only-in-first|:only-in-second].
+func reportDiffs(vs *viols, oracle, prefix string, d []string, format string, a ...any) {
+	for _, l := range d {
+		f := strings.Fields(l)
+		if len(f) < 2 {
+			continue
+		}
+		sig := prefix + ":" + f[1]
+		switch f[0] {
+		case "differs-in-order-only":
+			sig += ":order-only"
+		case "only-in-first", "only-in-second":
+			sig += ":" + f[0]
+		}
+		vs.add(oracle, sig, "%s; this object: %s; all differences: %v", fmt.Sprintf(format, a...), l, d)
+	}
+}
+
+// diffClass returns ":order-only" when every difference is one of order.
+func diffClass(d []string) string {
+	if len(d) == 0 {
+		return ""
+	}
+	for _, l := range d {
+		if !strings.HasPrefix(l, "differs-in-order-only ") {
+			return ""
+		}
+	}
+	return ":order-only"
+}
+
 func firstDiff(a, b string) string {
 	i := 0
 	for i < len(a) && i < len(b) && a[i] == b[i] {
@@ -475,6 +547,18 @@ func firstDiff(a, b string) string {
 	}
 	lo := max(0, i-60)
 	return fmt.Sprintf("...%s | ...%s", a[lo:min(len(a), i+80)], b[lo:min(len(b), i+80)])
+}
+
+// withoutEnv drops the pre-existing environment objects the operator does not own (the CRDs): the queue-controller operand
+// strips an old conversion webhook from the Queue CRD once, which is a one-way migration of the environment, not operand state.
+func withoutEnv(m map[string]string) map[string]string {
+	out := map[string]string{}
+	for k, v := range m {
+		if !strings.HasPrefix(k, "CustomResourceDefinition ") {
+			out[k] = v
+		}
+	}
+	return out
 }
 
 func kindsOfDiff(d []string) string {
@@ -542,7 +626,7 @@ func runOperatorCase(seed int64, index int, tier string, env *run.Env) run.CaseR
 
 	in := opInput{Seed: seed, Index: index, SpecA: g.spec()}
 	in.Env = opEnv{PrometheusCRDs: r.p(0.7), QueueCRD: pick(r, []int{0, 1, 1, 2}), ClusterPolicy: pick(r, []int{0, 0, 1, 2}), FakeGPUNode: r.p(0.2)}
-	if r.p(0.5) {
+	if r.p(0.4) {
 		b, what := g.mutateSpec(in.SpecA)
 		if in.SpecA.Prometheus != nil {
 			b.Prometheus = in.SpecA.Prometheus.DeepCopy()
@@ -567,7 +651,9 @@ func runOperatorCase(seed int64, index int, tier string, env *run.Env) run.CaseR
 		err := d.Deploy(ctx, s.cl, cfg, cfg)
 		cnt.inc("deploys")
 		cnt.add("mutating_calls", s.mon.Mutating)
-		cnt.add("noop_patch_requests", s.mon.Noop)
+		cnt.add("noop_write_requests", s.mon.Noop)
+		cnt.add("operator_noop_write_requests", s.mon.Noop)
+		cnt.add("operator_mutating_calls", s.mon.Mutating)
 		return cfg, nil, err
 	}
 	// fixpoint clauses on one store for one spec; returns the normalised dump
@@ -607,8 +693,11 @@ func runOperatorCase(seed int64, index int, tier string, env *run.Env) run.CaseR
 			}
 			exact2, _, _ := s.dump(ctx)
 			if s.mon.Mutating > 0 {
-				vs.add("operator-fixpoint", "operator-second-deploy-writes:"+kindsOfCalls(s.mon), "%s: Deploy #%d with the unchanged config issued %d mutating calls: %v; object changes: %v",
-					tag, i+2, s.mon.Mutating, s.mon.Log, diffDumps(exact, exact2))
+				dd := diffDumps(exact, exact2)
+				if len(dd) == 0 {
+					vs.add("operator-fixpoint", "operator-second-deploy-writes:"+kindsOfCalls(s.mon)+":no-net-change", "%s: Deploy #%d with the unchanged config issued %d mutating calls: %v", tag, i+2, s.mon.Mutating, s.mon.Log)
+				}
+				reportDiffs(vs, "operator-fixpoint", "operator-second-deploy-writes", dd, "%s: Deploy #%d with the unchanged config issued %d mutating calls: %v", tag, i+2, s.mon.Mutating, s.mon.Log)
 			} else if d := diffDumps(exact, exact2); len(d) > 0 {
 				vs.add("operator-fixpoint", "operator-second-deploy-changes:"+kindsOfDiff(d), "%s: Deploy #%d changed objects without a counted call: %v", tag, i+2, d)
 			}
@@ -627,8 +716,11 @@ func runOperatorCase(seed int64, index int, tier string, env *run.Env) run.CaseR
 		}
 		exact3, norm3, _ := s.dump(ctx)
 		if s.mon.Mutating > 0 {
-			vs.add("operator-fixpoint", "operator-restart-deploy-writes:"+kindsOfCalls(s.mon), "%s: Deploy by fresh operand instances (operator restart) with the unchanged config issued %d mutating calls: %v; object changes: %v",
-				tag, s.mon.Mutating, s.mon.Log, diffDumps(exact, exact3))
+			dd := diffDumps(exact, exact3)
+			if len(dd) == 0 {
+				vs.add("operator-fixpoint", "operator-restart-deploy-writes:"+kindsOfCalls(s.mon)+":no-net-change", "%s: Deploy after restart issued %d mutating calls: %v", tag, s.mon.Mutating, s.mon.Log)
+			}
+			reportDiffs(vs, "operator-fixpoint", "operator-restart-deploy-writes", dd, "%s: Deploy by fresh operand instances (operator restart) with the unchanged config issued %d mutating calls: %v", tag, s.mon.Mutating, s.mon.Log)
 		}
 		_ = norm
 		return norm3, true
@@ -654,9 +746,7 @@ func runOperatorCase(seed int64, index int, tier string, env *run.Env) run.CaseR
 		}
 		if ok2 {
 			cnt.inc("cross_store_comparisons")
-			if d := diffDumps(normA1, normA2); len(d) > 0 {
-				vs.add("operator-determinism", "operator-two-stores-differ:"+kindsOfDiff(d), "two fresh stores given the same config ended with different objects: %v", d)
-			}
+			reportDiffs(vs, "operator-determinism", "operator-two-stores-differ", diffDumps(normA1, normA2), "two fresh stores given the same config ended with different objects")
 		}
 		if in.SpecB != nil {
 			// configuration change A -> B on store 1 (same operator process) versus a fresh store that only ever saw B
@@ -675,9 +765,8 @@ func runOperatorCase(seed int64, index int, tier string, env *run.Env) run.CaseR
 			cnt.inc("config_changes")
 			if okB && okB3 {
 				cnt.inc("history_comparisons")
-				if d := diffDumps(normB1, normB3); len(d) > 0 {
-					vs.add("operator-determinism", "operator-history-dependence:"+kindsOfDiff(d), "config A then B (changed: %v) ended differently from a fresh deploy of B: %v", in.Changed, d)
-				}
+				reportDiffs(vs, "operator-determinism", "operator-history-dependence", diffDumps(withoutEnv(normB1), withoutEnv(normB3)),
+					"config A then B (changed: %v) ended differently from a fresh deploy of B", in.Changed)
 			}
 		}
 	}
